@@ -428,10 +428,46 @@ class Origins:
             elif t.k == "yield":
                 self.defs.setdefault(t.place.local, []).append(("resume", b.idx, None, t))
 
-    def of_operand(self, op, fields=()):
+    def of_operand(self, op, fields=(), at=None):
+        """origins of an operand; with `at` (block index of the use) only definitions that can
+        reach that block are followed (flow-sensitive: `root` before the loop is the parsed
+        shipped root only)"""
         if op.is_const:
             return {self._const(op, fields)}
+        if at is not None:
+            out = set()
+            self._at = True
+            try:
+                self._walk(op.place.local, _place_fields(op.place) + tuple(fields), out, set(), op.place, at)
+            finally:
+                self._at = False
+            return out
         return self.of_place(op.place, fields)
+
+    def set_cfg(self, cfg):
+        self.cfg = cfg
+
+    def _reaching(self, local, at):
+        """definitions of `local` (entries of self.defs) that can reach block `at`"""
+        ds = self.defs.get(local, [])
+        whole = []
+        for d in ds:
+            kind, bb, idx, obj = d
+            if kind == "call" and not obj.dest.proj:
+                whole.append(d)
+            elif kind == "stmt" and not obj.place.proj:
+                whole.append(d)
+        if len(whole) <= 1 or getattr(self, "cfg", None) is None:
+            return ds, True
+        wb = set(d[1] for d in whole)
+        out = []
+        for d in ds:
+            others = wb - {d[1]}
+            r = self.cfg.reach([d[1]], removed_blocks=others - {at})
+            if at in r:
+                out.append(d)
+        entry_reaches = at in self.cfg.reach((0,), removed_blocks=wb - {at}) if 0 not in wb else (0 == at)
+        return out, entry_reaches
 
     def _const(self, op, fields=()):
         if op.fn:
@@ -447,24 +483,29 @@ class Origins:
         self._walk(local, tuple(fields), out, seen, place)
         return out
 
-    def _walk(self, local, fields, out, seen, place=None):
-        key = (local, fields)
+    def _walk(self, local, fields, out, seen, place=None, at=None):
+        key = (local, fields, at)
         if key in seen:
             return
         seen.add(key)
         body = self.body
+        defs = self.defs.get(local, [])
+        entry_reaches = True
+        if at is not None:
+            defs, entry_reaches = self._reaching(local, at)
         # closure environment
         if self._is_closure and local == 1:
             if fields and isinstance(fields[0], tuple) and fields[0][0] == "up":
                 idx = fields[0][1]
                 out.add(Origin("upvar", (idx, body.upvar_name(idx) or "?"), _named(fields[1:])))
                 return
-        if 1 <= local <= body.argc:
+        if 1 <= local <= body.argc and entry_reaches:
             nm = body.name_of_local(local) or ""
             out.add(Origin("param", (local, nm), _named(fields)))
-        for (kind, bb, idx, obj) in self.defs.get(local, []):
+        for (kind, bb, idx, obj) in defs:
             if kind == "resume":
                 continue
+            nat = bb if at is not None else None
             if kind == "call":
                 t = obj
                 if t.dest.proj:
@@ -476,9 +517,9 @@ class Origins:
                     rest = fields
                 if t.is_call_to(*self.tall):
                     for a in t.args:
-                        self._operand(a, rest, out, seen)
+                        self._operand(a, rest, out, seen, nat)
                 elif t.is_call_to(*self.t0) and t.args:
-                    self._operand(t.args[0], rest, out, seen)
+                    self._operand(t.args[0], rest, out, seen, nat)
                 else:
                     out.add(Origin("call", (bb, strip_generics(t.resolved or t.callee or "?")),
                                    _named(rest), extra=t))
@@ -493,9 +534,9 @@ class Origins:
                 rest = fields
             rv = s.rv
             if rv.k == "use" or rv.k == "cast":
-                self._operand(rv.ops[0], rest, out, seen)
+                self._operand(rv.ops[0], rest, out, seen, nat)
             elif rv.k in ("ref", "copyderef", "rawptr"):
-                self._walk(rv.place.local, _place_fields(rv.place) + rest, out, seen, rv.place)
+                self._walk(rv.place.local, _place_fields(rv.place) + rest, out, seen, rv.place, nat)
             elif rv.k == "agg":
                 ak = rv.j["ak"]
                 if ak == "adt":
@@ -503,20 +544,20 @@ class Origins:
                     nf = _first_named(rest)
                     if nf is not None and nf[1] in names:
                         i = names.index(nf[1])
-                        self._operand(rv.ops[i], rest[nf[0] + 1:], out, seen)
+                        self._operand(rv.ops[i], rest[nf[0] + 1:], out, seen, nat)
                     elif len(rv.ops) == 1 and names and names[0].isdigit():
                         # newtype / enum payload wrapper: Some(x), Ok(x)
-                        self._operand(rv.ops[0], _drop_first_idx(rest), out, seen)
+                        self._operand(rv.ops[0], _drop_first_idx(rest), out, seen, nat)
                     elif not _named(rest):
                         out.add(Origin("agg", (bb, idx, rv.j["adt"] + "::" + rv.j["variant"]), (), extra=s))
                     # reading a named field not in this aggregate: impossible, skip
                 elif ak in ("tuple", "array"):
                     ti = _first_idx(rest)
                     if ti is not None and ak == "tuple" and ti[1] < len(rv.ops):
-                        self._operand(rv.ops[ti[1]], rest[ti[0] + 1:], out, seen)
+                        self._operand(rv.ops[ti[1]], rest[ti[0] + 1:], out, seen, nat)
                     else:
                         for o in rv.ops:
-                            self._operand(o, rest, out, seen)
+                            self._operand(o, rest, out, seen, nat)
                 else:
                     out.add(Origin("agg", (bb, idx, ak + ":" + rv.j.get("def", "")), (), extra=s))
             elif rv.k == "bin" or rv.k == "un":
@@ -524,15 +565,15 @@ class Origins:
             elif rv.k == "discr":
                 out.add(Origin("discr", (bb, idx), (), extra=s))
             elif rv.k == "repeat":
-                self._operand(rv.ops[0], rest, out, seen)
+                self._operand(rv.ops[0], rest, out, seen, nat)
             else:
                 out.add(Origin("unknown", (bb, idx, rv.k), ()))
 
-    def _operand(self, op, fields, out, seen):
+    def _operand(self, op, fields, out, seen, at=None):
         if op.is_const:
             out.add(self._const(op, _named(fields)))
         elif op.place is not None:
-            self._walk(op.place.local, _place_fields(op.place) + tuple(fields), out, seen, op.place)
+            self._walk(op.place.local, _place_fields(op.place) + tuple(fields), out, seen, op.place, at)
 
 
 def _place_fields(place):
